@@ -73,14 +73,36 @@ def rf_model_in(c, res):
     mic_none = (not sec) if redissected else (not sec or c.get("mic") is None)
     has_layer = bool(pl) if redissected else (bool(pl) or bool(c.get("raw_empty")))
     explicit = c.get("explicit", c["mode"] == "nwk")
-    if explicit:
-        src, dst = bytes.fromhex(c["src"]), bytes.fromhex(c["dst"])
-    elif c["mode"] != "nwk" and c.get("long", True):
-        src, dst = bytes.fromhex(c["src"]), bytes.fromhex(c["dst"])
+    gs, gd = c.get("gsrc", explicit), c.get("gdst", explicit)
+    if c["mode"] == "nwk":
+        hsrc = hdst = None
     else:
-        src = dst = None
+        d = 3 if c.get("long", True) else 2
+        sm, dm = c.get("smode", d), c.get("dmode", d)
+        hsrc = (sm, bytes.fromhex(c["src"]) if sm == 3 else (0x1234).to_bytes(2, "little"))
+        hdst = (dm, bytes.fromhex(c["dst"]) if dm == 3 else (0x5678).to_bytes(2, "little"))
+    # the effective addresses are NOT computed here: the model resolves them (rf_resolve) from the
+    # caller's arguments and the header addressing
     return dict(pre=pre, fctl=c["fctl"], fc=c["fc"].to_bytes(4, "little"), hdr=bytes.fromhex(c["hdr"]), payload=pl,
-                mic=mic, mic_none=mic_none, has_layer=has_layer, src=src, dst=dst, has_mac=c["mode"] != "nwk")
+                mic=mic, mic_none=mic_none, has_layer=has_layer, src=None, dst=None, has_mac=c["mode"] != "nwk",
+                asrc=bytes.fromhex(c["src"]) if gs else None, adst=bytes.fromhex(c["dst"]) if gd else None,
+                dasrc=bytes.fromhex(c.get("decsrc", c["src"])) if gs else None,
+                dadst=bytes.fromhex(c.get("decdst", c["dst"])) if gd else None, hsrc=hsrc, hdst=hdst)
+
+
+def c_amode(h):
+    if h is None:
+        return "None"
+    m, a = h
+    return "(Some %s)" % ("AMNone" if m == 0 else "(AMShort %s)" % cbytes(a) if m == 2 else "(AMLong %s)" % cbytes(a))
+
+
+def c_addrs(m, dec=False):
+    """asrc, adst, hsrc, hdst [, dasrc, dadst] literals"""
+    xs = [copt(m["asrc"], cbytes), copt(m["adst"], cbytes), c_amode(m["hsrc"]), c_amode(m["hdst"])]
+    if dec:
+        xs += [copt(m["dasrc"], cbytes), copt(m["dadst"], cbytes)]
+    return ", ".join(xs)
 
 
 def c_rf_in(m):
@@ -243,6 +265,26 @@ def gen_rf(ctx):
         c["fctl"] &= ~0x20
         c["expect"] = "reserved0"
         cases.append(c)
+    # full product of 802.15.4 addressing modes (source, destination: none / short / long) x caller-supplied
+    # source / destination (given / absent) behind a MAC header, with and without FCS. The expectation comes from
+    # the case alone: both 8-byte addresses available (argument, else long header address) => round trip;
+    # otherwise the missing address must be reported as (packet, False).
+    for mode in ("mac", "fcs"):
+        for sm in (0, 2, 3):
+            for dm in (0, 2, 3):
+                for gs in (False, True):
+                    for gd in (False, True):
+                        c = rf_case(rng, mode, rng.choice([1, 2, 3]), 1, rng.choice([1, 5, 17]), smode=sm, dmode=dm, gsrc=gs, gdst=gd,
+                                    mic=rb(rng, 4).hex())
+                        if dm == 0:
+                            c["expect"] = "nodest"
+                        elif not ((gs or sm == 3) and (gd or dm == 3)):
+                            c["expect"] = "noaddr"
+                        cases.append(c)
+    # the same on the decrypt side only, for frames that cannot be produced by encrypt (no usable address)
+    for mode in ("mac", "fcs"):
+        for sm, dm, gs, gd in ((2, 3, False, False), (3, 2, False, False), (2, 2, True, False), (0, 3, False, True), (2, 3, False, True)):
+            cases.append(rf_case(rng, mode, 1, 1, 4, smode=sm, dmode=dm, gsrc=gs, gdst=gd, op="dec", mic="01020304", expect="dec-noaddr"))
     # missing addresses: short MAC addresses and no explicit ones / rf4ce_only without addresses
     cases.append(rf_case(rng, "mac", 1, 1, 4, long=False, expect="noaddr"))
     cases.append(rf_case(rng, "fcs", 2, 1, 4, long=False, expect="noaddr"))
@@ -384,6 +426,18 @@ def oracle_rf(ctx, c, r, st):
                 ctx.violation("RF4CE %s of a packet without RF4CE layer did not raise MissingRF4CEHeader" % nm, case,
                               expected="MissingRF4CEHeader", observed=o)
         return
+    if exp == "nodest":
+        # a frame without destination addressing is not dissected by scapy as a data frame carrying an RF4CE
+        # layer: either the missing address or the missing layer must be reported, nothing else
+        for o in (enc, dec):
+            if o is None:
+                continue
+            if not (("tuple" in o and o["tuple"][1] is False) or o.get("exc") == "MissingRF4CEHeader" or "pkt" in o):
+                ctx.violation("RF4CE frame without destination addressing: unrelated outcome", case,
+                              expected="(packet, False) or MissingRF4CEHeader", observed=o)
+        if "pkt" in enc and not (dec and (dec.get("exc") == "MissingRF4CEHeader" or ("tuple" in dec))):
+            ctx.violation("RF4CE frame without destination addressing: unrelated outcome of decrypt", case, observed=dec)
+        return
     if exp == "dec-sec0":
         st["missing"] += 1
         if (dec or {}).get("exc") != "MissingRF4CESecurityFlag":
@@ -501,7 +555,7 @@ def run(ctx):
     ]
     ctx.assumptions = ["LoRaWAN: FOptsLen = len(FOpts) <= 15, PHY length <= 255 (payload 0..222 with 15 FOpts bytes), 4-byte MIC field, both session keys given for data frames / AppKey for join accept",
                        "join accept body + MIC is a multiple of 16 bytes (12 or 28 byte body)",
-                       "RF4CE: 8-byte source and destination, 4-byte frame counter, frames at least as long as their headers; reserved bit set (else known finding)",
+                       "RF4CE: 8-byte source and destination (caller argument, else long 802.15.4 header address; every addressing-mode combination with a destination field is modelled), 4-byte frame counter, frames at least as long as their headers; reserved bit set (else known finding)",
                        "Unifying: encrypted keystroke frames (type 0xD3) with 7-byte hid_data / unused and a counter"]
     libs = ["theories/Lib/Bytes.vo", "theories/Lib/Xor.vo", "theories/Lib/Aes.vo", "theories/Lib/Ccm.vo", "theories/Lib/Cmac.vo"]
     proofs_ok, detail = ctx.check_proofs(lib_targets=libs)
@@ -561,26 +615,23 @@ def run(ctx):
             i_nh.append(i)
             continue
         m = rf_model_in(c, r)
+        if (m["hdst"] or (3, b""))[0] == 0:
+            continue   # no destination addressing: scapy re-dissects such a frame without RF4CE layer (oracle only)
         if c.get("op") == "dec":
-            t_rd.append("(%s, %s, %s, %s)" % (leg, cbytes(bytes.fromhex(c.get("deckey", c["key"]))), c_rf_in(m), rf_strip(c, r["dec"])))
+            t_rd.append("(%s, %s, %s, %s, %s)" % (leg, cbytes(bytes.fromhex(c.get("deckey", c["key"]))), c_rf_in(m), c_addrs(m),
+                                                  rf_strip(c, r["dec"])))
             i_rd.append(i)
             continue
-        explicit = c.get("explicit", c["mode"] == "nwk")
-        dsrc = bytes.fromhex(c.get("decsrc", c["src"])) if (explicit or m["src"] is not None) else None
-        ddst = bytes.fromhex(c.get("decdst", c["dst"])) if (explicit or m["dst"] is not None) else None
-        if not explicit and m["src"] is not None:
-            dsrc, ddst = m["src"], m["dst"]
-        t_rf.append("(%s, %s, %s, %s, %s, %s, %s, %s)" % (leg, cbytes(bytes.fromhex(c["key"])), cbytes(bytes.fromhex(c.get("deckey", c["key"]))),
-                                                         c_rf_in(m), copt(dsrc, cbytes), copt(ddst, cbytes),
-                                                         rf_strip(c, r["enc"]), rf_strip(c, r.get("dec"))))
+        t_rf.append("(%s, %s, %s, %s, %s, %s, %s)" % (leg, cbytes(bytes.fromhex(c["key"])), cbytes(bytes.fromhex(c.get("deckey", c["key"]))),
+                                                     c_rf_in(m), c_addrs(m, dec=True), rf_strip(c, r["enc"]), rf_strip(c, r.get("dec"))))
         i_rf.append(i)
         if "sweep" in r:
             w = bytes.fromhex(r["enc"]["pkt"])
             if c["mode"] == "fcs":
                 w = w[:-2]
-            t_rs.append("(%s, %s, %s, %s, %s, %s, %s, %s)" % (leg, cbytes(bytes.fromhex(c.get("deckey", c["key"]))), cnat(len(m["pre"])),
-                                                             copt(dsrc, cbytes), copt(ddst, cbytes), cbool(m["has_mac"]), cbytes(w),
-                                                             clist([str(x) for x in r["sweep"]])))
+            m2 = dict(m, asrc=m["dasrc"], adst=m["dadst"])
+            t_rs.append("(%s, %s, %s, %s, %s, %s)" % (leg, cbytes(bytes.fromhex(c.get("deckey", c["key"]))), cnat(len(m["pre"])),
+                                                     c_addrs(m2), cbytes(w), clist([str(x) for x in r["sweep"]])))
             i_rs.append(i)
     t_un, i_un = [], []
     for i, (c, r) in enumerate(zip(un, res["un"])):
@@ -592,9 +643,9 @@ def run(ctx):
     groups = [
         ("lw", "bool * keys3 * keys3 * packet * outcome bytes * outcome bytes", t_lw, "check_lw", i_lw, lw, res["lw"], 12),
         ("lwsweep", "bool * keys3 * bytes * list N", t_sw, "check_lw_sweep", i_sw, lw, res["lw"], 1),
-        ("rf", "bool * bytes * bytes * rf_in * option bytes * option bytes * rf_out * rf_out", t_rf, "check_rf", i_rf, rf, res["rf"], 12),
-        ("rfsweep", "bool * bytes * nat * option bytes * option bytes * bool * bytes * list N", t_rs, "check_rf_sweep", i_rs, rf, res["rf"], 1),
-        ("rfdec", "bool * bytes * rf_in * rf_out", t_rd, "check_rf_dec", i_rd, rf, res["rf"], 10),
+        ("rf", "bool * bytes * bytes * rf_in * option bytes * option bytes * option addr_mode * option addr_mode * option bytes * option bytes * rf_out * rf_out", t_rf, "check_rf", i_rf, rf, res["rf"], 12),
+        ("rfsweep", "bool * bytes * nat * option bytes * option bytes * option addr_mode * option addr_mode * bytes * list N", t_rs, "check_rf_sweep", i_rs, rf, res["rf"], 1),
+        ("rfdec", "bool * bytes * rf_in * option bytes * option bytes * option addr_mode * option addr_mode * rf_out", t_rd, "check_rf_dec", i_rd, rf, res["rf"], 10),
         ("rfnohdr", "bool * bytes * rf_out * rf_out", t_nh, "check_rf_nohdr", i_nh, rf, res["rf"], 10),
         ("un", "bool * bytes * bytes * un_frame * outcome bytes * outcome bytes * outcome bytes", t_un, "check_un", i_un, un, res["un"], 30),
     ]
@@ -635,7 +686,7 @@ def run(ctx):
                            "lw_downlink": sum(1 for c in data if c["mtype"] in (3, 5)), "lw_missing_key": st["missing"],
                            "lw_struct_error": sum(1 for c in data if 9 + len(c["fopts"]) // 2 + len(c["payload"]) // 2 > 255),
                            "lw_ecb_misaligned": sum(1 for c in lw if c["kind"] == "join" and (len(c["body"]) // 2 + 4) % 16),
-                           "rf_noaddr": sum(1 for c in rf if c.get("expect") in ("noaddr", "dec-noaddr")), "rf_security_flag_clear_on_decrypt": sum(1 for c in rf if c.get("expect") == "dec-sec0"), "rf_no_header": len(t_nh),
+                           "rf_noaddr": sum(1 for c in rf if c.get("expect") in ("noaddr", "dec-noaddr")), "rf_addressing_grid": sum(1 for c in rf if "smode" in c), "rf_no_destination_mode": sum(1 for c in rf if c.get("expect") == "nodest"), "rf_security_flag_clear_on_decrypt": sum(1 for c in rf if c.get("expect") == "dec-sec0"), "rf_no_header": len(t_nh),
                            "un_missing_payload": sum(1 for c in un if c["ft"] != 0xD3)},
         "uncovered_branches": ["un_crypt: IndexError (hid_data shorter than 7 bytes: scapy returns the raw short value)",
                                "rf_parse / dissect: None (frames shorter than their headers are outside the model)"],
